@@ -437,7 +437,14 @@ def _(repo):
     ps = [ast.unparse(v) for v in assigns(wrap(i0.body), "p")]
     if ps != ["jnp.zeros((n,))", "p.at[:n_start].set(1 / n_start)"]:
         raise Untranslatable("initial p built differently: " + str(ps))
-    return (f"Definition gen_rar_init_counter (every : Z) : Z := {zexpr(c.args[2], RENV)}.\n"
+    # init_rar may re-arm the period counter and nothing else: every functional update of the generator in it is listed
+    upd = [ast.unparse(n.value.args[0]) for n in ast.walk(f) if isinstance(n, ast.Assign) and isinstance(n.value, ast.Call)
+           and ast.unparse(n.value.func) == "eqx.tree_at" and ast.unparse(n.targets[0]) == "data"]
+    stores = [ast.unparse(t) for n in ast.walk(f) if isinstance(n, (ast.Assign, ast.AugAssign)) for t in (n.targets if isinstance(n, ast.Assign) else [n.target])
+              if isinstance(t, ast.Attribute) and ast.unparse(t).startswith("data.")]
+    only_counter = upd == ["lambda m: m.rar_iter_from_last_sampling"] and not stores
+    return (f"Definition gen_rar_init_touches_only_the_counter : bool := {'true' if only_counter else 'false'}.\n"
+            f"Definition gen_rar_init_counter (every : Z) : Z := {zexpr(c.args[2], RENV)}.\n"
             f"Definition gen_rar_ctor_counter (every : Z) : Z := {zexpr(cnt0, RENV)}.\n"
             f"Definition gen_rar_ctor_step : Z := {zexpr(j0, RENV)}.\n"
             f"(* p = zeros(n).at[:n_start].set(1 / n_start) *)\nDefinition gen_rar_ctor_active (n_start : Z) : Z := n_start.")
